@@ -126,7 +126,11 @@ def once(ctx, case, second=False):
         for i in (0, 1):
             gap = inner[i] - outer[i]
             stable[i] = gap * gap * seglen2 <= (STABLE * tol) ** 2
-    must_accept = inner is not None and (robust or all(stable))
+    # Acceptance is demanded only when some part of the segment is inside by MORE than the tolerance, which needs a
+    # rectangle at least 2 tol thick on both axes.  A zero-area rectangle (a line or a point) can hold nothing "by
+    # more than the tolerance", so the statement lets either answer stand there: the unchanged code rejects a
+    # diagonal through a point-rectangle when the clipped coordinate comes out 1e-18 beyond it.
+    must_accept = inner is not None and robust
     if inner is not None and not must_accept:
         ctx.count("ill_conditioned_acceptance_not_demanded")
     if not accept:
